@@ -24,6 +24,9 @@ def _engine(F, visits, extra_inline=None):
     def pol(fn, ev):
         if sym.inline_consts(fn, ev):
             return True
+        if fn.crate in ("postcard", "postcard_dyn") and not (fn.impl_trait or ""):
+            # integer helpers built from smaller private helpers (a shared widened encoder, a raw reader): analysed in place
+            return True
         if extra_inline and extra_inline(fn, ev):
             return True
         return False
